@@ -327,10 +327,13 @@
             (dst (make-bytevector
                   (arithmetic-shift (quotient encode-src-length 3) 2))))
         (let lp ()
-          (let ((n (read-bytevector! src in 0 2048)))
+          ;; full chunks are a multiple of 3 bytes, so that padding
+          ;; is only written at the end of the input
+          (let* ((n0 (read-bytevector! src in 0 encode-src-length))
+                 (n (if (eof-object? n0) 0 n0)))
             (base64-encode-bytevector! src 0 n dst)
             (write-bytevector dst out 0 (* 4 (quotient (+ n 2) 3)))
-            (if (= n 2048)
+            (if (= n encode-src-length)
                 (lp)
                 (flush-output-port out)))))))))
 
